@@ -63,7 +63,7 @@ func writeFile(out *tar.Writer, file *files.Content) (int64, error) {
 
 	// tar.FileInfoHeader only uses file.Mode().Perm() which masks the mode with
 	// 0o777 which we don't want because we want to be able to set the suid bit.
-	header.Mode = int64(file.Mode())
+	header.Mode = file.UnixMode()
 	header.Format = tar.FormatGNU
 	header.Name = files.AsExplicitRelativePath(file.Destination)
 	header.Size = size
